@@ -52,7 +52,9 @@ use std::{
     collections::{hash_map::Entry, BinaryHeap, HashMap, HashSet},
     fmt, io,
     net::{IpAddr, Ipv4Addr, Ipv6Addr, SocketAddr, SocketAddrV4, SocketAddrV6, UdpSocket},
-    str, thread,
+    str,
+    sync::{Arc, RwLock},
+    thread,
     time::Duration,
     vec,
 };
@@ -240,6 +242,11 @@ pub struct ServiceDaemon {
     /// to avoid busy polling the flume channel. If there is a way to poll
     /// the channel and mDNS sockets together, then this can be removed.
     signal_addr: SocketAddr,
+
+    /// Set by the daemon when it handles the exit command. Commands are put in
+    /// the channel under a read lock of this flag, so that none can slip in
+    /// behind the daemon's final sweep of the channel.
+    closed: Arc<RwLock<bool>>,
 }
 
 impl ServiceDaemon {
@@ -318,16 +325,27 @@ impl ServiceDaemon {
         // Spawn the daemon thread
         let mio_sock = MioUdpSocket::from_std(signal_sock);
         let cmd_sender = sender.clone();
+        let closed = Arc::new(RwLock::new(false));
+        let daemon_closed = closed.clone();
         thread::Builder::new()
             .name("mDNS_daemon".to_string())
             .spawn(move || {
-                Self::daemon_thread(mio_sock, poller, receiver, port, cmd_sender, signal_addr)
+                Self::daemon_thread(
+                    mio_sock,
+                    poller,
+                    receiver,
+                    port,
+                    cmd_sender,
+                    signal_addr,
+                    daemon_closed,
+                )
             })
             .map_err(|e| e_fmt!("thread builder failed to spawn: {}", e))?;
 
         Ok(Self {
             sender,
             signal_addr,
+            closed,
         })
     }
 
@@ -336,11 +354,18 @@ impl ServiceDaemon {
     fn send_cmd(&self, cmd: Command) -> Result<()> {
         let cmd_name = cmd.to_string();
 
-        // First, send to the flume channel.
-        self.sender.try_send(cmd).map_err(|e| match e {
-            TrySendError::Full(_) => Error::Again,
-            TrySendError::Disconnected(_) => Error::DaemonShutdown,
-        })?;
+        // First, send to the flume channel - unless the daemon is shutting down
+        // and has swept, or is about to sweep, the channel for the last time.
+        {
+            let closed = self.closed.read().unwrap_or_else(|e| e.into_inner());
+            if *closed {
+                return Err(Error::DaemonShutdown);
+            }
+            self.sender.try_send(cmd).map_err(|e| match e {
+                TrySendError::Full(_) => Error::Again,
+                TrySendError::Disconnected(_) => Error::DaemonShutdown,
+            })?;
+        }
 
         // Second, send a signal to notify the daemon.
         let addr = SocketAddrV4::new(LOOPBACK_V4, 0);
@@ -746,12 +771,13 @@ impl ServiceDaemon {
         port: u16,
         cmd_sender: Sender<Command>,
         signal_addr: SocketAddr,
+        closed: Arc<RwLock<bool>>,
     ) {
         #[cfg(feature = "verif-hooks")]
         let _verif_guard = crate::verif::claim_pending();
         let mut zc = Zeroconf::new(signal_sock, poller, port, cmd_sender, signal_addr);
 
-        if let Some(cmd) = zc.run(receiver) {
+        if let Some(cmd) = zc.run(receiver, &closed) {
             match cmd {
                 Command::Exit(resp_s) => {
                     // It is guaranteed that the receiver already dropped,
@@ -1395,7 +1421,7 @@ impl Zeroconf {
     /// 3. try_recv on its channel and execute commands.
     /// 4. announce its registered services.
     /// 5. process retransmissions if any.
-    fn run(&mut self, receiver: Receiver<Command>) -> Option<Command> {
+    fn run(&mut self, receiver: Receiver<Command>, closed: &RwLock<bool>) -> Option<Command> {
         // Add the daemon's signal socket to the poller.
         if let Err(e) = self.poller.registry().register(
             &mut self.signal_sock,
@@ -1500,6 +1526,14 @@ impl Zeroconf {
                     debug!("Exit command received, performing cleanup");
                     self.cleanup();
                     self.status = DaemonStatus::Shutdown;
+
+                    // Commands queued behind the exit will never run. Close the
+                    // gate (no handle is in the middle of sending once the write
+                    // lock is ours) and drop them, so that their reply channels
+                    // close: flume keeps queued messages, and the reply senders
+                    // inside them, for as long as any handle of the daemon lives.
+                    *closed.write().unwrap_or_else(|e| e.into_inner()) = true;
+                    while receiver.try_recv().is_ok() {}
                     return Some(command);
                 }
                 self.exec_command(command, false);
